@@ -105,6 +105,15 @@ check("C09", level="model_checking", engine="lx",
            "Bounds: 2 outputs, 4 dependency paths (all padding cases) + one path at the record size limit, small mtime domain.",
       design_ref="5/C09")
 
+check("C16", level="model_checking", engine="ix",
+      technique="bounded-exhaustive name enumeration through the real Edge evaluation and the real /bin/sh; rspfile lifecycle by schedule/fault enumeration in engine A",
+      text="Every 1-2 byte name (all byte values but NUL/newline) and every 3-byte name over 24 shell-special bytes is "
+           "substituted for $in, $out and $in_newline by ninja's own evaluation and parsed by the real /bin/sh: exactly one "
+           "word per name, equal to the name; safe names verbatim. Response files: content at command start, removal after "
+           "success and retention after failure on every schedule of the rspfile templates.",
+      note="Trusted base: src/ix/shell.cc, src/ix/printargs.c, /bin/sh (dash) as reference; for (b) the engine-A base. "
+           "Names with NUL/newline excluded as the property states; longer names are not enumerated.", design_ref="5/C16")
+
 ALL = ["C%02d" % i for i in range(1, 21)]
 
 
